@@ -45,6 +45,8 @@ def chain_compiler_rules(chk, repo, prefix):
     C05.rule_R2(chk, repo, rid=f'{prefix}.b')
     C05.rule_R3(chk, repo, rid=f'{prefix}.c')
     C05.rule_R5(chk, repo, rid=f'{prefix}.d')
+    C05.rule_R6(chk, repo, rid=f'{prefix}.e')
+    C05.rule_R7(chk, repo, rid=f'{prefix}.f')
 
 
 def ownership_rules(chk, repo, rid, text=None):
